@@ -168,6 +168,67 @@ def refine_cases(draw):
             'aseed': draw(st.integers(0, 500))}
 
 
+_EDGE = [0, 1, 2, 30, 31, 32, 33, 34, 62, 63, 64, 65, 66, 96]
+
+
+@st.composite
+def wide_cases(draw):
+    """Sequential networks whose layers are wider than one 32-channel NE16 tile, with the
+    per-precision channel counts of every layer drawn directly (biased to tile boundaries): here
+    chains of promotions across three precisions and partial moves (tile filling) pay off."""
+    cut = st.one_of(st.integers(0, 96), st.sampled_from(_EDGE))
+    widths = [draw(st.sampled_from([33, 40, 48, 63, 64, 65, 80, 96])) for _ in
+              range(draw(st.integers(1, 2)))]
+    nodes = []
+    src = 'x'
+    for i, c in enumerate(widths):
+        k = draw(st.sampled_from([1, 3]))
+        nodes.append({'id': f'n{2 * i}', 'op': 'conv2d', 'in': [src], 'k': k, 'p': k // 2,
+                      'stride': 1, 'cout': c, 'bias': draw(st.booleans()), 'bn': False,
+                      'groups': 1})
+        nodes.append({'id': f'n{2 * i + 1}', 'op': 'relu', 'in': [f'n{2 * i}'], 'variant': 'mod'})
+        src = f'n{2 * i + 1}'
+    j = 2 * len(widths)
+    nodes.append({'id': f'n{j}', 'op': 'gap', 'in': [src]})
+    nodes.append({'id': f'n{j + 1}', 'op': 'flatten', 'in': [f'n{j}'], 'variant': 'mod'})
+    nodes.append({'id': f'n{j + 2}', 'op': 'linear', 'in': [f'n{j + 1}'],
+                  'cout': draw(st.sampled_from([4, 16, 40])), 'bias': True, 'bn': False})
+    spec = {'family': '2d', 'inputs': [[draw(st.sampled_from([3, 16, 40])), 4, 4]],
+            'out': f'n{j + 2}', 'nodes': nodes}
+    w_prec = list(draw(st.permutations([2, 4, 8])))
+    if draw(st.integers(0, 4)) == 0:
+        w_prec = w_prec[:2]
+    if draw(st.integers(0, 4)) == 0:
+        w_prec = [0] + w_prec
+    return {'spec': spec, 'w_prec': w_prec, 'wseed': draw(st.integers(0, 5)),
+            'aseed': draw(st.integers(0, 500)),
+            'cuts': [[draw(cut) for _ in range(3)] for _ in range(len(widths) + 1)]}
+
+
+def set_counts(mps, cuts, aseed):
+    """Gives the k-th per-channel weight selector the per-precision channel counts described by
+    cuts[k] (sorted, clamped to the channel count); scores are distinct, arg-max as assigned."""
+    import torch
+    k = 0
+    seen = set()
+    with torch.no_grad():
+        for lname, node, layer in mps._leaf_modules:
+            q = getattr(layer, 'w_mps_quantizer', None)
+            if q is None or q.alpha.dim() != 2 or id(q) in seen:
+                continue
+            seen.add(id(q))
+            P, C = q.alpha.shape
+            cs = sorted(min(c, C) for c in cuts[k % len(cuts)][:P - 1])
+            counts = [b - a for a, b in zip([0] + cs, cs + [C])]
+            g = ng._gen(aseed, f"wide/{lname}")
+            a = torch.rand(P, C, generator=g) * 0.5
+            assign = torch.repeat_interleave(torch.arange(P), torch.tensor(counts))
+            assign = assign[torch.randperm(C, generator=g)]
+            a[assign, torch.arange(C)] += 1.0
+            q.alpha.copy_(a)
+            k += 1
+
+
 def oracle_refine(case) -> Result:
     import io
     import contextlib
@@ -179,6 +240,8 @@ def oracle_refine(case) -> Result:
     mps, x0 = mu.build_mps(spec, case['wseed'], case['w_prec'], [8], per_channel=True,
                            cost={'ne16': ne16_latency})
     mu.set_coefficients(mps, case['aseed'])
+    if case.get('cuts'):
+        set_counts(mps, case['cuts'], case['aseed'])
     mps.eval()
     mps.update_softmax_options(hard=True)
     with torch.no_grad():
@@ -310,6 +373,11 @@ def oracle_refine(case) -> Result:
         res.bad('refinement-raised-the-cost', before=cost_before, after=cost_after, shared=shared,
                 **ctx)
     res.nontrivial = promoted > 0
+    if case.get('cuts'):
+        res.ev('wide-layers')
+        for c in calls:
+            if 'cur_counts' in c and sum(1 for a, b in zip(c['cur_counts'], c['best']) if a != b) >= 3:
+                res.ev('three-precisions-changed-in-one-layer')
     res.ev('promoted' if promoted else 'nothing-promoted', 'shared-selector' if shared else
            'no-sharing', 'zero-bit' if 0 in case['w_prec'] else 'no-zero-bit',
            'sorted-precisions' if case['w_prec'] == sorted(case['w_prec']) else
@@ -359,6 +427,8 @@ CHECK = Check(
              budget={'quick': 1500, 'thorough': 10000}, shards={'quick': 1, 'thorough': 16}),
         Part('refine', oracle_refine, strategy=refine_cases(),
              budget={'quick': 120, 'thorough': 500}, shards={'quick': 1, 'thorough': 16}),
+        Part('refine-wide', oracle_refine, strategy=wide_cases(),
+             budget={'quick': 60, 'thorough': 600}, shards={'quick': 4, 'thorough': 16}),
     ],
     rule=("step: _reassign_precisions(best, scores) called directly with score matrices up to 4 x 8 "
           "(uniform random, with ties, or binary as after a previous reassignment) and targets = "
@@ -367,7 +437,9 @@ CHECK = Check(
           "optimize_prec_assignment on per-channel MPS models (NetSpec grammar restricted to "
           "1x1/3x3 kernels, 8-bit activations, weight precisions = ordered subset of {2,4,8} with "
           "optional 0) under {'ne16': ne16_latency}; the harness wraps _reassign_precisions to "
-          "record the chosen counts. Non-trivial = targets differ from current counts (step) / at "
+          "record the chosen counts. refine-wide: the same oracle on sequential networks whose layers "
+          "have 33..96 output channels (more than one 32-channel NE16 tile) and per-precision "
+          "channel counts drawn directly, biased to tile boundaries. Non-trivial = targets differ from current counts (step) / at "
           "least one channel promoted (refine); distinct by case hash."),
     assumptions=[
         "the classifier of the open finding re-runs the harness' transcription of the shipped "
